@@ -351,13 +351,14 @@ find_unmapped_pfn(const struct pfn_file_map *maps, size_t nmaps,
 		  kdump_pfn_t pfn)
 {
 	const struct pfn_file_map *pfm;
+	const struct pfn_region *rgn;
 
-	if ( (pfm = find_pfn_file_map(maps, nmaps, pfn)) &&
-	     pfm->start_pfn <= pfn) {
-		const struct pfn_region *rgn = find_pfn_region(pfm, pfn);
-		if (rgn && rgn->pfn <= pfn)
-			return rgn->pfn + rgn->cnt;
-	}
+	/* The run of mapped PFNs may continue in the next file. */
+	while ( (pfm = find_pfn_file_map(maps, nmaps, pfn)) &&
+		pfm->start_pfn <= pfn &&
+		(rgn = find_pfn_region(pfm, pfn)) &&
+		rgn->pfn <= pfn)
+		pfn = rgn->pfn + rgn->cnt;
 	return pfn;
 }
 
